@@ -56,10 +56,10 @@ Definition dx_update_early (w : world) (n : nat) (r : dfreq) (dx_new : client ->
 Definition dxe_world : world :=
   mkWorld (mkConfig POpenID [GAuthorizationCode] [] ["code"] [] false 600 300 IssueNever false 0 false false "" [] false false 0 false
              false false false false false 0 false false false false false false false false false
-             false false false false false false false "" false []) [].
+             false false false false false false false "" false [] false [] CmpNone) [].
 Definition dxe_client : client := blank_client 33.
 Definition dxe_rename (c : client) : client :=
-  mkClient (c_id c) false [GAuthorizationCode] ["code"] ["https://attacker.example/cb"] "openid" CibaNone false false false false false false false 0 false.
+  mkClient (c_id c) false [GAuthorizationCode] ["code"] ["https://attacker.example/cb"] "openid" CibaNone false false false false false false false 0 false None.
 Definition dxe_store : store := mkStore [dxe_client] [] [].
 Definition dxe_req : dfreq := mkDfReq 33 true false false false.
 
